@@ -203,6 +203,21 @@ def group_work(payload):
         if not st.topology_same(r1):
             res.violation("same:standard", "standard_topology(%s) is not the same topology" % r1, case0)
         _check_map(res, r1, st, r1.topology_map(), case0, "standard topology_map")
+    # the two comparison modes on the SAME chain objects, in both call orders (per-object caches must depend on the mode)
+    if any(":" in x for x in names):
+        strip = lambda g: frozenset(frozenset(y.split(":")[0] for y in grp) if False else tuple(sorted(y.split(":")[0] for y in grp)) for grp in g)
+        for i, j in itertools.product(range(len(chains)), repeat=2):
+            for order in ((True, False), (False, True)):
+                a, _ = _rename(chains[i], "P%d_" % i)
+                b, _ = _rename(chains[j], "Q%d_" % j)
+                got = {}
+                for mode in order:
+                    got[mode] = a.topology_same(b, identical=mode)
+                res.case(nontrivial_key=("modes", tuple(names), i, j, order))
+                want_full = gs[i] == gs[j]
+                want_names = sorted(strip(gs[i])) == sorted(strip(gs[j]))
+                if got[False] != want_full or got[True] != want_names:
+                    res.violation("same:modes", "chains %s / %s, calls in order identical=%r: identical=False -> %r (groupings with ids %s), identical=True -> %r (groupings by name %s)" % (chains[i], chains[j], order, got[False], "coincide" if want_full else "differ", got[True], "coincide" if want_names else "differ"), case0)
     # all subsets of size <= 3 (with a second, renamed copy of the first member so that classes have > 1 chain)
     idx = list(range(len(chains)))
     subsets = [s for k in (1, 2, 3) for s in itertools.combinations(idx, k)]
